@@ -15,7 +15,7 @@ func TestVerifC20Mapper(t *testing.T) {
 	out := vhfsOpen(t)
 	defer out.Close()
 	r := vhfsRand()
-	rounds := 6
+	rounds := 12
 	if vhfsThorough() {
 		rounds = 40
 	}
@@ -48,13 +48,32 @@ func TestVerifC20Mapper(t *testing.T) {
 		var conc [][3]uint64
 		var wg sync.WaitGroup
 		start := make(chan struct{})
-		for w := 0; w < 16; w++ {
+		const workers = 16
+		// rendezvous: all workers ask for the same fresh (Mapper, path) at the same moment
+		type fk struct {
+			m int
+			s uint64
+		}
+		var fresh []fk
+		for i := 0; i < 48; i++ {
+			fresh = append(fresh, fk{r.Intn(nm), 5000 + uint64(round*100+i)})
+		}
+		bars := make([]sync.WaitGroup, len(fresh))
+		for i := range bars {
+			bars[i].Add(workers)
+		}
+		for w := 0; w < workers; w++ {
 			wr := rand.New(rand.NewSource(vhfsSeed()*7919 + int64(round*100+w)))
 			wg.Add(1)
 			go func() {
 				defer wg.Done()
 				<-start
-				local := make([][3]uint64, 0, 50)
+				local := make([][3]uint64, 0, 100)
+				for i, k := range fresh {
+					bars[i].Done()
+					bars[i].Wait()
+					local = append(local, [3]uint64{uint64(k.m), k.s, ms[k.m].QIDFor(p9.QID{Path: k.s}).Path})
+				}
 				for i := 0; i < 50; i++ {
 					m := wr.Intn(nm)
 					s := srcs[wr.Intn(len(srcs))]
